@@ -58,12 +58,12 @@ def Replaced (fs0 st : FS) (tmp target : Path) (new : Bytes) : Prop :=
   FS.get st target = some (newFile fs0 target new) ∧ FS.get st tmp = none ∧
   ∀ p, p ≠ tmp → p ≠ target → FS.get st p = FS.get fs0 p
 
-theorem cleanup_spec {sc : Scenario} {tmp : Path} {states : List FS} {fs0 fs : FS} {op : Op}
-    (hs : ∀ st ∈ states, OnlyTmp fs0 st tmp) (hf : OnlyTmp fs0 fs tmp) (hin : fs ∈ states) :
-    (∀ st ∈ (cleanup sc tmp states fs op).states, OnlyTmp fs0 st tmp) ∧
+theorem cleanup_spec {sc : Scenario} {tmp : Path} {states : Unit → List FS} {fs0 fs : FS} {op : Op}
+    (hs : ∀ st ∈ states (), OnlyTmp fs0 st tmp) (hf : OnlyTmp fs0 fs tmp) (hin : fs ∈ states ()) :
+    (∀ st ∈ (cleanup sc tmp states fs op).states (), OnlyTmp fs0 st tmp) ∧
     OnlyTmp fs0 (cleanup sc tmp states fs op).final tmp ∧
     (cleanup sc tmp states fs op).outcome = .error op ∧
-    (cleanup sc tmp states fs op).final ∈ (cleanup sc tmp states fs op).states ∧
+    (cleanup sc tmp states fs op).final ∈ (cleanup sc tmp states fs op).states () ∧
     (sc.unlinkFails = false → FS.get (cleanup sc tmp states fs op).final tmp = none) := by
   unfold cleanup
   split
@@ -78,14 +78,14 @@ theorem cleanup_spec {sc : Scenario} {tmp : Path} {states : List FS} {fs0 fs : F
 /-- what a run of `writeFile` has to satisfy: every state but the last of a successful run differs from the
 initial one only in the temp file; a failing run ends in such a state; a successful run ends with the target replaced. -/
 def WFSpec (sc : Scenario) (fs0 : FS) (tmp target : Path) (new : Bytes) (r : Run) : Prop :=
-  r.final ∈ r.states ∧
-  (∀ st ∈ r.states, OnlyTmp fs0 st tmp ∨ (st = r.final ∧ r.outcome = .ok)) ∧
+  r.final ∈ r.states () ∧
+  (∀ st ∈ r.states (), OnlyTmp fs0 st tmp ∨ (st = r.final ∧ r.outcome = .ok)) ∧
   (r.outcome = .ok → Replaced fs0 r.final tmp target new) ∧
   (∀ op, r.outcome = .error op → OnlyTmp fs0 r.final tmp ∧
     (op ≠ .createTemp → sc.unlinkFails = false → FS.get r.final tmp = none) ∧ (op = .createTemp → r.final = fs0))
 
-theorem wfspec_cleanup {sc : Scenario} {tmp target : Path} {new : Bytes} {states : List FS} {fs0 fs : FS} {op : Op}
-    (hs : ∀ st ∈ states, OnlyTmp fs0 st tmp) (hf : OnlyTmp fs0 fs tmp) (hin : fs ∈ states) (hop : op ≠ .createTemp) :
+theorem wfspec_cleanup {sc : Scenario} {tmp target : Path} {new : Bytes} {states : Unit → List FS} {fs0 fs : FS} {op : Op}
+    (hs : ∀ st ∈ states (), OnlyTmp fs0 st tmp) (hf : OnlyTmp fs0 fs tmp) (hin : fs ∈ states ()) (hop : op ≠ .createTemp) :
     WFSpec sc fs0 tmp target new (cleanup sc tmp states fs op) := by
   obtain ⟨h1, h2, h3, h4, h5⟩ := cleanup_spec (sc := sc) (op := op) hs hf hin
   refine ⟨h4, fun st hst => Or.inl (h1 st hst), ?_, ?_⟩
@@ -96,30 +96,35 @@ theorem wfspec_cleanup {sc : Scenario} {tmp target : Path} {new : Bytes} {states
     subst hop'
     exact ⟨h2, fun _ hu => h5 hu, fun h => absurd h hop⟩
 
+theorem copyStates_onlyTmp (sc : Scenario) (tmp : Path) (new : Bytes) (fs0 : FS) :
+    ∀ st ∈ copyStates sc tmp new fs0, OnlyTmp fs0 st tmp := by
+  intro st hst
+  unfold copyStates at hst
+  rcases List.mem_append.mp hst with h | h
+  · simp at h
+    rcases h with rfl | rfl
+    · exact onlyTmp_refl _ _
+    · exact onlyTmp_set _ _ _
+  · obtain ⟨j, _, rfl⟩ := List.mem_map.mp h
+    exact onlyTmp_set _ _ _
+
+theorem copyStates_last (sc : Scenario) (tmp : Path) (new : Bytes) (fs0 : FS) :
+    FS.set fs0 tmp ⟨new.take (written sc new), 0o600⟩ ∈ copyStates sc tmp new fs0 := by
+  unfold copyStates
+  apply List.mem_append_right
+  exact List.mem_map.mpr ⟨written sc new, by simp, rfl⟩
+
 theorem writeFile_spec (sc : Scenario) {tmp target : Path} (new : Bytes) (fs0 : FS) (hne : tmp ≠ target) :
     WFSpec sc fs0 tmp target new (writeFile sc tmp target new fs0) := by
   have hnt : target ≠ tmp := fun h => hne h.symm
-  have hgrow : ∀ st ∈ [fs0, FS.set fs0 tmp ⟨[], 0o600⟩] ++
-      (List.range (written sc new + 1)).map (fun j => FS.set fs0 tmp ⟨new.take j, 0o600⟩), OnlyTmp fs0 st tmp := by
-    intro st hst
-    rcases List.mem_append.mp hst with h | h
-    · simp at h
-      rcases h with rfl | rfl
-      · exact onlyTmp_refl _ _
-      · exact onlyTmp_set _ _ _
-    · obtain ⟨j, _, rfl⟩ := List.mem_map.mp h
-      exact onlyTmp_set _ _ _
+  have hgrow := copyStates_onlyTmp sc tmp new fs0
   have hfs2 : OnlyTmp fs0 (FS.set fs0 tmp ⟨new.take (written sc new), 0o600⟩) tmp := onlyTmp_set _ _ _
-  have hin2 : FS.set fs0 tmp ⟨new.take (written sc new), 0o600⟩ ∈ [fs0, FS.set fs0 tmp ⟨[], 0o600⟩] ++
-      (List.range (written sc new + 1)).map (fun j => FS.set fs0 tmp ⟨new.take j, 0o600⟩) := by
-    apply List.mem_append_right
-    exact List.mem_map.mpr ⟨written sc new, by simp, rfl⟩
+  have hin2 := copyStates_last sc tmp new fs0
   have hget2 : FS.get (FS.set fs0 tmp ⟨new.take (written sc new), 0o600⟩) target = FS.get fs0 target :=
     get_set_other fs0 _ hnt
-  have herr : ∀ op, op ≠ .createTemp → WFSpec sc fs0 tmp target new (cleanup sc tmp ([fs0, FS.set fs0 tmp ⟨[], 0o600⟩] ++
-        (List.range (written sc new + 1)).map (fun j => FS.set fs0 tmp ⟨new.take j, 0o600⟩))
+  have herr : ∀ op, op ≠ .createTemp → WFSpec sc fs0 tmp target new (cleanup sc tmp (fun _ => copyStates sc tmp new fs0)
         (FS.set fs0 tmp ⟨new.take (written sc new), 0o600⟩) op) :=
-    fun op hop => wfspec_cleanup hgrow hfs2 hin2 hop
+    fun op hop => wfspec_cleanup (states := fun _ => copyStates sc tmp new fs0) hgrow hfs2 hin2 hop
   unfold writeFile
   split
   · -- TempFile fails
@@ -190,7 +195,7 @@ theorem writeFile_spec (sc : Scenario) {tmp target : Path} (new : Bytes) (fs0 : 
                         exact hfs3 p hp1
                     · intro op hop; cases hop
 
-theorem cleanup_outcome (sc : Scenario) (tmp : Path) (states : List FS) (fs : FS) (op : Op) :
+theorem cleanup_outcome (sc : Scenario) (tmp : Path) (states : Unit → List FS) (fs : FS) (op : Op) :
     (cleanup sc tmp states fs op).outcome = .error op := by
   unfold cleanup; split <;> rfl
 
@@ -236,7 +241,7 @@ theorem writeFile_target (sc : Scenario) {tmp target : Path} (new : Bytes) (fs0 
   | error op => simp; exact (herr op ho).1 target hnt
 
 theorem writeFile_frame (sc : Scenario) {tmp target : Path} (new : Bytes) (fs0 : FS) (hne : tmp ≠ target)
-    {p : Path} (hp1 : p ≠ tmp) (hp2 : p ≠ target) : ∀ st ∈ (writeFile sc tmp target new fs0).states, FS.get st p = FS.get fs0 p := by
+    {p : Path} (hp1 : p ≠ tmp) (hp2 : p ≠ target) : ∀ st ∈ (writeFile sc tmp target new fs0).states (), FS.get st p = FS.get fs0 p := by
   obtain ⟨_, hst, hok, _⟩ := writeFile_spec sc new fs0 hne
   intro st hmem
   rcases hst st hmem with h | ⟨rfl, ho⟩
@@ -295,7 +300,7 @@ theorem rewriteFile_target (render : Bytes → Option Bytes) (sc : Scenario) {tm
         simp [rewriteOutcome, hread, hr, newFile, hg]
 
 theorem rewriteFile_frame (render : Bytes → Option Bytes) (sc : Scenario) {tmp target : Path} (fs : FS) (hne : tmp ≠ target)
-    {p : Path} (hp1 : p ≠ tmp) (hp2 : p ≠ target) : ∀ st ∈ (rewriteFile render sc tmp target fs).states, FS.get st p = FS.get fs p := by
+    {p : Path} (hp1 : p ≠ tmp) (hp2 : p ≠ target) : ∀ st ∈ (rewriteFile render sc tmp target fs).states (), FS.get st p = FS.get fs p := by
   unfold rewriteFile
   split
   · intro st h; simp at h; rw [h]
@@ -306,7 +311,7 @@ theorem rewriteFile_frame (render : Bytes → Option Bytes) (sc : Scenario) {tmp
       · exact writeFile_frame sc _ fs hne hp1 hp2
 
 theorem rewriteFile_final_mem (render : Bytes → Option Bytes) (sc : Scenario) {tmp target : Path} (fs : FS) (hne : tmp ≠ target) :
-    (rewriteFile render sc tmp target fs).final ∈ (rewriteFile render sc tmp target fs).states := by
+    (rewriteFile render sc tmp target fs).final ∈ (rewriteFile render sc tmp target fs).states () := by
   unfold rewriteFile
   split
   · simp
@@ -318,7 +323,7 @@ theorem rewriteFile_final_mem (render : Bytes → Option Bytes) (sc : Scenario) 
 
 /-- the two shapes of a run of `rewriteFile` -/
 theorem rewriteFile_cases (render : Bytes → Option Bytes) (sc : Scenario) (tmp target : Path) (fs : FS) :
-    ((rewriteFile render sc tmp target fs).states = [fs] ∧ (rewriteFile render sc tmp target fs).final = fs ∧
+    ((rewriteFile render sc tmp target fs).states () = [fs] ∧ (rewriteFile render sc tmp target fs).final = fs ∧
       ((rewriteFile render sc tmp target fs).outcome = .error .read ∨
         ((rewriteFile render sc tmp target fs).outcome = .error .parse ∧
           ∃ f, FS.get fs target = some f ∧ render f.content = none))) ∨
